@@ -65,7 +65,7 @@ static void install_handlers(void)
     sigaction(SIGABRT, &sa, NULL);
     sigaction(SIGFPE, &sa, NULL);
     sigaction(SIGILL, &sa, NULL);
-    sigaction(SIGALRM, &sa, NULL);        /* watchdog: a run that does not end within 30 s of CPU-independent wall time */
+    sigaction(SIGALRM, &sa, NULL);        /* watchdog: a run that does not end within 10 s of CPU-independent wall time */
 #ifndef VERIF_ASAN
     sigaction(SIGSEGV, &sa, NULL);
     sigaction(SIGBUS, &sa, NULL);
@@ -138,7 +138,7 @@ int main(int argc, char **argv)
             cur_seed = seed;
             printf("START %" PRIu64 "\n", seed);
             fflush(stdout);
-            alarm(30);
+            alarm(10);
             install_handlers();
             plan p;
             plan_init(&p, e->name, seed);
@@ -166,7 +166,7 @@ int main(int argc, char **argv)
                 cur_seed = p.seed;
                 printf("SW %" PRIu64 " %" PRIu64 " %d\nSTART %" PRIu64 "\n", p.seed, bseed, k, p.seed);
                 fflush(stdout);
-                alarm(30);
+                alarm(10);
                 reset_run_state();
                 e->run(&p);
                 report(p.seed);
@@ -195,7 +195,7 @@ int main(int argc, char **argv)
         if (!strcmp(argv[1], "gen") || optflag(argc, argv, "--plan")) plan_write(&p, stdout);
         if (!strcmp(argv[1], "gen")) return 0;
         printf("START %" PRIu64 "\n", seed);
-        alarm(30);
+        alarm(10);
         reset_run_state();
         e->run(&p);
         report(seed);
@@ -211,7 +211,7 @@ int main(int argc, char **argv)
         const engine *e = engine_by_name(p.engine);
         cur_seed = p.seed;
         printf("START %" PRIu64 "\n", p.seed);
-        alarm(30);
+        alarm(10);
         reset_run_state();
         e->run(&p);
         report(p.seed);
